@@ -138,6 +138,21 @@ func TestC09(t *testing.T) {
 			}
 			ps = append(ps, p)
 		}
+		if n >= 2 && rapid.IntRange(0, 3).Draw(rt, "nearCollision") == 0 {
+			// two different (asset, amount) pairs whose textual concatenations coincide
+			// (USD/2 51 vs USD/25 1; COIN 12 vs COIN1 2): anything that keys postings by text must keep them apart
+			base := rapid.SampledFrom([]string{"USD/2", "COIN", "X", "EUR/1", "A1"}).Draw(rt, "ncBase")
+			d := rapid.SampledFrom([]string{"1", "5", "12", "0"}).Draw(rt, "ncDigits")
+			amt2 := fmt.Sprint(rapid.IntRange(0, 99).Draw(rt, "ncAmt"))
+			a1, _ := new(big.Int).SetString(d+amt2, 10)
+			a2, _ := new(big.Int).SetString(amt2, 10)
+			i, j := 0, 1+rapid.IntRange(0, n-2).Draw(rt, "ncPos")
+			ps[i].Asset, ps[i].Amount, ps[i].Source = base, a1, "world"
+			ps[j].Asset, ps[j].Amount, ps[j].Source = base+d, a2, "world"
+			if rapid.Bool().Draw(rt, "ncSwap") {
+				ps[i], ps[j] = ps[j], ps[i]
+			}
+		}
 		if rapid.IntRange(0, 5).Draw(rt, "invalid") == 0 {
 			k := rapid.IntRange(0, n-1).Draw(rt, "badIdx")
 			invalid = rapid.SampledFrom([]string{"negative", "address", "asset", "address-space", "asset-lower"}).Draw(rt, "badKind")
